@@ -21,3 +21,180 @@ Theorem C13_valid_genesis_iff : forall (E : Env) (st : BeaconState),
    MIN_GENESIS_ACTIVE_VALIDATOR_COUNT (cfg E) <= N.of_nat (length (get_active_validator_indices st GENESIS_EPOCH))).
 Proof. exact valid_genesis_iff. Qed.
 Print Assumptions C13_valid_genesis_iff.
+
+(* ======================================================================================================
+   zrnt's genesis construction refines the specification.
+   Impl model: Beacon/Impl/Genesis.v (phase0/genesis.go GenesisFromEth1 + IsValidGenesisState, phase0/deposit.go
+   ProcessDeposit with the epochs context's pubkey cache = the C16 cache model, phase0/kickstart.go KickStartState,
+   randao.go SeedRandao, state.go NewBeaconStateView/AddValidator); proofs: Beacon/Refine/GenesisRefine.v.
+
+   Hypotheses, all explicit below:
+     * the hash returns 32 bytes and the depth-2 zero hash has 32 bytes (root of List[Root] = root of List[DepositData]);
+     * 0 < EFFECTIVE_BALANCE_INCREMENT (Go `%` by zero panics), 0 < SLOTS_PER_EPOCH;
+     * the Spec's bls_verify refuses keys / signatures that do not decode (pk_ok / sig_ok are zrnt's decoders:
+       an undecodable key or signature makes ProcessDeposit skip the deposit);
+     * uint64 ranges: timestamp + GENESIS_DELAY, the sum of the deposit amounts, at most 2^32 deposits (limit of the
+       deposit-roots list view; ztyp refuses to append beyond it) and at most VALIDATOR_REGISTRY_LIMIT of them;
+     * every deposit's pubkey is a 48-byte array (it is the cache key).
+   zrnt's two refusals beyond the Spec's assertions are part of the statement: a registry below SLOTS_PER_EPOCH
+   ("not enough validators to init full featured BeaconState") and no validator active at genesis (LoadProposers).
+   ====================================================================================================== *)
+From Coq Require Import Bool.
+From RecordUpdate Require Import RecordSet.
+From V Require Import Base.U64 Base.Outcome Beacon.Spec.Block Beacon.Impl.BlockOps Beacon.Impl.Genesis Beacon.Refine.GenesisRefine.
+Import ListNotations RecordSetNotations.
+Local Open Scope list_scope.
+
+(* (1) the deposit loop: a List[Root] view grown by one data root per deposit, its root written into eth1_data before each
+   ProcessDeposit, "known validator" decided by the pubkey cache  =  the Spec's loop over List[DepositData] prefixes with
+   the registry scan; same state and same leaves after every deposit list, error exactly where the Spec asserts *)
+Theorem C13_genesis_deposit_loop_refines :
+  forall (E : Env) (pk_ok sig_ok : bytes -> bool) (deposits : list value) (st0 : BeaconState),
+  (forall x, length (Hash E x) = 32%nat) -> length (zero_hashes E 2) = 32%nat ->
+  0 < EFFECTIVE_BALANCE_INCREMENT (cfg E) ->
+  (forall pk m s, bls_verify E pk m s = true -> pk_ok pk = true /\ sig_ok s = true) ->
+  validators st0 = [] -> balances st0 = [] -> eth1_deposit_index st0 = 0 ->
+  N.of_nat (length deposits) <= 2 ^ 32 -> N.of_nat (length deposits) <= VALIDATOR_REGISTRY_LIMIT (cfg E) ->
+  sumN (map (fun dep => vuint (vfield (vfield dep 1) 2)) deposits) < two64 ->
+  Forall (fun dep => length (vbytes (vfield (vfield dep 1) 0)) = 48%nat /\
+                     Forall (fun b => b < 256) (vbytes (vfield (vfield dep 1) 0))) deposits ->
+  (x <~ deposit_loop E pk_ok sig_ok false deposits (st0, [], pc_empty) ;; Ok (fst (fst x), snd (fst x)))
+  = match fold_left (fun (acc : option (BeaconState * list value)) dep =>
+             sl <- acc ;;
+             let '(st, leaves) := sl in
+             let leaves := leaves ++ [vfield dep 1] in
+             let st := st <| eth1_data := mkEth1Data (htr E (TList DepositDataT (2 ^ 32)) (VSeq leaves))
+                                                     (e_deposit_count (eth1_data st)) (e_block_hash (eth1_data st)) |> in
+             st <- process_deposit E Phase0 st dep ;;
+             Some (st, leaves))
+          deposits (Some (st0, [])) with
+    | Some (st, leaves) => Ok (st, map (htr E DepositDataT) leaves)
+    | None => Err
+    end.
+Proof. exact genesis_deposit_loop_refines. Qed.
+Print Assumptions C13_genesis_deposit_loop_refines.
+
+(* (2) the activation loop (read validator i and balance i through the views, recompute the effective balance, activate at
+   the maximum) = the Spec's map over (validator, balance) *)
+Theorem C13_genesis_activation_refines : forall (E : Env) (vals : list Validator) (bals : list N),
+  0 < EFFECTIVE_BALANCE_INCREMENT (cfg E) -> length bals = length vals ->
+  activation_loop E vals bals =
+  Ok (map (fun vb : Validator * N =>
+             let '(v, b) := vb in
+             let v := v <| v_effective_balance :=
+                             N.min (b - b mod EFFECTIVE_BALANCE_INCREMENT (cfg E)) (MAX_EFFECTIVE_BALANCE (cfg E)) |> in
+             if v_effective_balance v =? MAX_EFFECTIVE_BALANCE (cfg E)
+             then v <| v_activation_eligibility_epoch := GENESIS_EPOCH |> <| v_activation_epoch := GENESIS_EPOCH |>
+             else v) (combine vals bals)).
+Proof. exact genesis_activation_refines. Qed.
+Print Assumptions C13_genesis_activation_refines.
+
+(* (3) GenesisFromEth1: whenever zrnt returns a state it is the Spec's state, field for field; it errors exactly where the
+   Spec asserts (a Merkle branch that does not verify), or the registry has fewer validators than SLOTS_PER_EPOCH, or no
+   validator is active at the genesis epoch *)
+Theorem C13_genesis_from_eth1_refines :
+  forall (E : Env) (pk_ok sig_ok : bytes -> bool) (eth1_block_hash : bytes) (eth1_timestamp : N) (deposits : list value),
+  (forall x, length (Hash E x) = 32%nat) -> length (zero_hashes E 2) = 32%nat ->
+  0 < EFFECTIVE_BALANCE_INCREMENT (cfg E) -> 0 < SLOTS_PER_EPOCH (cfg E) ->
+  (forall pk m s, bls_verify E pk m s = true -> pk_ok pk = true /\ sig_ok s = true) ->
+  eth1_timestamp + GENESIS_DELAY (cfg E) < two64 ->
+  N.of_nat (length deposits) <= 2 ^ 32 -> N.of_nat (length deposits) <= VALIDATOR_REGISTRY_LIMIT (cfg E) ->
+  sumN (map (fun dep => vuint (vfield (vfield dep 1) 2)) deposits) < two64 ->
+  Forall (fun dep => length (vbytes (vfield (vfield dep 1) 0)) = 48%nat /\
+                     Forall (fun b => b < 256) (vbytes (vfield (vfield dep 1) 0))) deposits ->
+  genesis_from_eth1 E pk_ok sig_ok eth1_block_hash eth1_timestamp deposits false =
+  match initialize_beacon_state_from_eth1 E eth1_block_hash eth1_timestamp deposits with
+  | Some st =>
+      if N.of_nat (length (validators st)) <? SLOTS_PER_EPOCH (cfg E) then Err
+      else if N.of_nat (length (get_active_validator_indices st GENESIS_EPOCH)) =? 0 then Err
+      else Ok st
+  | None => Err
+  end.
+Proof. exact genesis_from_eth1_refines. Qed.
+Print Assumptions C13_genesis_from_eth1_refines.
+
+(* the same where the Spec's state has an active validator (e.g. one deposit of MAX_EFFECTIVE_BALANCE): the only refusal
+   beyond the Spec's assertions is the registry size *)
+Theorem C13_genesis_from_eth1_refines_active :
+  forall (E : Env) (pk_ok sig_ok : bytes -> bool) (eth1_block_hash : bytes) (eth1_timestamp : N) (deposits : list value),
+  (forall x, length (Hash E x) = 32%nat) -> length (zero_hashes E 2) = 32%nat ->
+  0 < EFFECTIVE_BALANCE_INCREMENT (cfg E) -> 0 < SLOTS_PER_EPOCH (cfg E) ->
+  (forall pk m s, bls_verify E pk m s = true -> pk_ok pk = true /\ sig_ok s = true) ->
+  eth1_timestamp + GENESIS_DELAY (cfg E) < two64 ->
+  N.of_nat (length deposits) <= 2 ^ 32 -> N.of_nat (length deposits) <= VALIDATOR_REGISTRY_LIMIT (cfg E) ->
+  sumN (map (fun dep => vuint (vfield (vfield dep 1) 2)) deposits) < two64 ->
+  Forall (fun dep => length (vbytes (vfield (vfield dep 1) 0)) = 48%nat /\
+                     Forall (fun b => b < 256) (vbytes (vfield (vfield dep 1) 0))) deposits ->
+  (forall st, initialize_beacon_state_from_eth1 E eth1_block_hash eth1_timestamp deposits = Some st ->
+              SLOTS_PER_EPOCH (cfg E) <= N.of_nat (length (validators st)) ->
+              get_active_validator_indices st GENESIS_EPOCH <> []) ->
+  genesis_from_eth1 E pk_ok sig_ok eth1_block_hash eth1_timestamp deposits false =
+  match initialize_beacon_state_from_eth1 E eth1_block_hash eth1_timestamp deposits with
+  | Some st => if N.of_nat (length (validators st)) <? SLOTS_PER_EPOCH (cfg E) then Err else Ok st
+  | None => Err
+  end.
+Proof. exact genesis_from_eth1_refines_active. Qed.
+Print Assumptions C13_genesis_from_eth1_refines_active.
+
+(* (4) IsValidGenesisState (genesis time below the minimum -> false; count IsActive(v, GENESIS_EPOCH) with a uint64
+   counter; count >= MIN_GENESIS_ACTIVE_VALIDATOR_COUNT) = the Spec's predicate *)
+Theorem C13_valid_genesis_refines : forall (E : Env) (st : BeaconState),
+  N.of_nat (length (validators st)) < two64 ->
+  is_valid_genesis_state_go E st = is_valid_genesis_state E st.
+Proof. exact valid_genesis_refines. Qed.
+Print Assumptions C13_valid_genesis_refines.
+
+(* (5) KickStartState (deposits without proofs carrying a placeholder signature, ignoreSignatureAndProof = true, timestamp 0,
+   then SetGenesisTime) = the Spec's genesis under the oracle that accepts every key and signature that DECODE, for the
+   same deposit data with any Merkle branches the Spec accepts, genesis_time overwritten.  (The flag does not switch off
+   the decoders: an undecodable pubkey is skipped by zrnt also here.) *)
+Theorem C13_kickstart_refines :
+  forall (E : Env) (pk_ok sig_ok : bytes -> bool) (placeholder_sig eth1_block_hash : bytes) (time : N)
+         (vs : list (bytes * bytes * N)) (proofs : list (list bytes)) (st : BeaconState),
+  (forall x, length (Hash E x) = 32%nat) -> length (zero_hashes E 2) = 32%nat ->
+  0 < EFFECTIVE_BALANCE_INCREMENT (cfg E) -> 0 < SLOTS_PER_EPOCH (cfg E) -> GENESIS_DELAY (cfg E) < two64 ->
+  N.of_nat (length vs) <= 2 ^ 32 -> N.of_nat (length vs) <= VALIDATOR_REGISTRY_LIMIT (cfg E) ->
+  sumN (map (fun v => snd v) vs) < two64 ->
+  Forall (fun v => length (fst (fst v)) = 48%nat /\ Forall (fun b => b < 256) (fst (fst v))) vs ->
+  length proofs = length vs ->
+  initialize_beacon_state_from_eth1
+    (mkEnv (cfg E) (Hash E) (zero_hashes E) (fun pk _ s => pk_ok pk && sig_ok s)
+           (bls_fast_aggregate_verify E) (bls_aggregate_pubkeys E) (engine_accepts E))
+    eth1_block_hash 0
+    (map (fun pv : list bytes * (bytes * bytes * N) =>
+            let '(pk, wc, bal) := snd pv in
+            VCont [VSeq (map VBytes (fst pv)); VCont [VBytes pk; VBytes wc; VUint bal; VBytes placeholder_sig]])
+         (combine proofs vs)) = Some st ->
+  kickstart_state E pk_ok sig_ok placeholder_sig eth1_block_hash time vs =
+    if N.of_nat (length (validators st)) <? SLOTS_PER_EPOCH (cfg E) then Err
+    else if N.of_nat (length (get_active_validator_indices st GENESIS_EPOCH)) =? 0 then Err
+    else Ok (st <| genesis_time := time |>).
+Proof. exact kickstart_refines. Qed.
+Print Assumptions C13_kickstart_refines.
+
+(* Non-vacuity, under SHA-256 with real Merkle branches of the incrementally grown deposit tree and a toy signature oracle:
+   six deposits — validator 1 (32 ETH), key 2 with a wrong signature (skipped), a 1-ETH top-up of validator 1, an
+   undecodable key (skipped), validator 3 (32 ETH), validator 4 (17 ETH: registered, not activated).  All hypotheses of
+   C13_genesis_from_eth1_refines hold, Impl and Spec compute the same state, and that state is the expected one. *)
+Example C13_genesis_nonvacuous :
+  let E := GenesisExample.ex_env in
+  let deposits := GenesisExample.ex_deposits in
+  ((forall x, length (Hash E x) = 32%nat) /\ length (zero_hashes E 2) = 32%nat /\
+   0 < EFFECTIVE_BALANCE_INCREMENT (cfg E) /\ 0 < SLOTS_PER_EPOCH (cfg E) /\
+   (forall pk m s, bls_verify E pk m s = true -> GenesisExample.ex_pk_ok pk = true /\ GenesisExample.ex_sig_ok s = true) /\
+   990 + GENESIS_DELAY (cfg E) < two64 /\
+   N.of_nat (length deposits) <= 2 ^ 32 /\ N.of_nat (length deposits) <= VALIDATOR_REGISTRY_LIMIT (cfg E) /\
+   sumN (map (fun dep => vuint (vfield (vfield dep 1) 2)) deposits) < two64 /\
+   Forall (fun dep => length (vbytes (vfield (vfield dep 1) 0)) = 48%nat /\
+                      Forall (fun b => b < 256) (vbytes (vfield (vfield dep 1) 0))) deposits) /\
+  (genesis_from_eth1 E GenesisExample.ex_pk_ok GenesisExample.ex_sig_ok GenesisExample.ex_hash 990 deposits false
+     = of_opt (initialize_beacon_state_from_eth1 E GenesisExample.ex_hash 990 deposits) /\
+   option_map (fun st => (map (fun v => hd 0 (v_pubkey v)) (validators st), balances st,
+                          map v_effective_balance (validators st), map v_activation_epoch (validators st),
+                          eth1_deposit_index st, genesis_time st))
+              (initialize_beacon_state_from_eth1 E GenesisExample.ex_hash 990 deposits)
+     = Some ([1; 3; 4], [33000000000; 32000000000; 17000000000], [32000000000; 32000000000; 17000000000],
+             [0; 0; FAR_FUTURE_EPOCH], 6, 1000) /\
+   option_map (is_valid_genesis_state_go E) (initialize_beacon_state_from_eth1 E GenesisExample.ex_hash 990 deposits)
+     = Some true).
+Proof. exact (conj GenesisExample.ex_hyps GenesisExample.ex_runs). Qed.
